@@ -12,8 +12,13 @@ from onl.sim.resources.resource import Preempted
 from onl.sim.events import ConditionValue
 from vlib.util import bits
 
+class Cancelled(BaseException):
+    """a user exception modelled on asyncio.CancelledError: derives from BaseException, NOT from Exception.  A process may die
+    with it or an event may be failed with it like with any other exception (the model treats exception types as opaque names)"""
+
+
 EXC = {'ValueError': ValueError, 'KeyError': KeyError, 'RuntimeError': RuntimeError,
-       'ZeroDivisionError': ZeroDivisionError, 'IndexError': IndexError}
+       'ZeroDivisionError': ZeroDivisionError, 'IndexError': IndexError, 'Cancelled': Cancelled}
 
 FILTERS = [lambda x: True, lambda x: x % 2 == 0, lambda x: x % 2 == 1, lambda x: x >= 5, lambda x: x < 3]
 
@@ -83,6 +88,7 @@ class Runner:
         self.env = Environment() if env is None else env
         self.lines = []
         self.notes = []          # oracle-only records (never compared with the model)
+        self._granted, self._reqs = set(), {}      # note_fcfs: requests seen granted; requests per (resource, kind) in creation order
         self.slots = {}
         self.labels = {}
         self.keep = []
@@ -148,6 +154,7 @@ class Runner:
         def cb(ev):
             o = f'ok {self.fmt_val(ev._value)}' if ev._ok else f'fail {self.fmt_exc(ev._value)}'
             self.lines.append(f'B {tag} e{self.lab(ev)} {o} @{self.now()}')
+            self.hook('probed', ev, cb)
         return cb
 
     def snap(self):
@@ -185,18 +192,66 @@ class Runner:
             info.append((put_ok, get_ok))
         self.notes.append(('heads', self.env.now, info))
 
+    def note_fcfs(self):
+        """oracle-only (C07 "put requests and get requests are each served first come first served"): called right after every
+        put/get call and after every kernel step; records each request found granted (triggered) since the last look while an
+        OLDER request of the same kind on the same container/store is still waiting in the queue"""
+        seen = self._granted
+        for ri, ((k, cap, _), r) in enumerate(zip(self.case.res, self.res)):
+            if k in ('resource', 'priority', 'preemptive'):
+                continue
+            for kind, queue in (('put', r.put_queue), ('get', r.get_queue)):
+                mine = self._reqs.get((ri, kind), [])
+                new = [e for e in mine if id(e) not in seen and e.triggered]
+                for x in new:
+                    seen.add(id(x))
+                for x in new:
+                    if not x.ok:
+                        continue
+                    for y in queue:
+                        if y.triggered or self.lab(y) == 0 or self.lab(y) >= self.lab(x):
+                            continue
+                        if k == 'fstore' and kind == 'get' and not y.filter(x.value):
+                            continue      # a FilterStore lets a later getter overtake one whose filter does not match the item
+                        what = (f'item {x.item!r}' if k != 'container' else f'amount {x.amount}') if kind == 'put' else \
+                               (f'received {x.value!r}' if k != 'container' else f'amount {x.amount}')
+                        self.notes.append(('fcfs', k, ri, kind, self.lab(x), self.lab(y), what, self.env.now,
+                                           [self.lab(e) for e in queue]))
+                        break
+
+    def track_req(self, ri, kind, ev):
+        self._reqs.setdefault((ri, kind), []).append(ev)
+        self.note_fcfs()
+        return ev
+
     # ---- the interpreter --------------------------------------------------------------------
     def spawn(self, pidx, name):
-        p = self.env.process(self.proc(name, pidx))
+        me = []                  # the script process learns which Process object it runs in (set before its first statement)
+        p = self.env.process(self.proc(name, pidx, me))
+        me.append(p)
         self.new(p)
         self.pnames[id(p)] = name
+        self.hook('spawned', p, name)
         return p
 
-    def proc(self, name, pidx):
+    def proc(self, name, pidx, me):
+        """the generator handed to env.process(): the script body, plus an oracle-only record of how it ended"""
+        try:
+            v = yield from self.body(name, pidx, me)
+        except GeneratorExit:
+            raise
+        except BaseException as x:
+            self.hook('ended', me[0], name, False, x)
+            raise
+        self.hook('ended', me[0], name, True, v)
+        return v
+
+    def body(self, name, pidx, me):
         env, slots = self.env, self.slots
         prog = self.case.progs[pidx] if pidx < len(self.case.progs) else []
         pc = 0
         self.log(name, 'start', None)
+        self.hook('started', me[0], name)
         while pc < len(prog):
             ins = prog[pc]; pc += 1
             op = ins[0]
@@ -221,22 +276,31 @@ class Runner:
                 elif op == 'interrupt':
                     ev = slots.get(ins[1])
                     if ev is not None and isinstance(ev, Process):
-                        alive, selfi = ev.is_alive, env.active_process is ev
+                        alive, selfi = ev.is_alive, ev is me[0]      # "oneself" = the Process this generator runs in
+                        busy = ev.target is not None and ev.target.callbacks is None     # the victim's awaited event is being processed right now
                         try:
                             ev.interrupt(ins[2])
-                            self.hook('interrupt', name, ev, ins[2], alive, selfi, False)
+                            self.hook('interrupt', name, ev, ins[2], alive, selfi, False, me[0], busy)
                         except RuntimeError:
-                            self.hook('interrupt', name, ev, ins[2], alive, selfi, True)
+                            self.hook('interrupt', name, ev, ins[2], alive, selfi, True, me[0], busy)
                             raise
                 elif op == 'probe':
                     ev = slots.get(ins[1])
-                    if ev is not None and ev.callbacks is not None: ev.callbacks.append(self.probe_cb(ins[2]))
+                    if ev is not None and ev.callbacks is not None:
+                        ev.callbacks.append(self.probe_cb(ins[2]))
+                        self.hook('probe', ev, ev.callbacks[-1])
                 elif op == 'log':
                     self.log(name, 'log', ins[1])
                 elif op in ('allof', 'anyof'):
                     evs = [slots[s] for s in ins[2:] if s in slots]
                     mine = list(evs)
-                    slots[ins[1]] = self.new((AllOf if op == 'allof' else AnyOf)(env, evs))
+                    if len(evs) == 2 and ins[1] % 2 == 0:
+                        # two operands, even target slot: the same condition written with the operator (`a & b` is
+                        # all_of([a, b]), `a | b` is any_of([a, b])); chains like `(a & b) & c` arise when a slot holds a condition
+                        cond = (evs[0] & evs[1]) if op == 'allof' else (evs[0] | evs[1])
+                    else:
+                        cond = (AllOf if op == 'allof' else AnyOf)(env, evs)
+                    slots[ins[1]] = self.new(cond)
                     evs.clear()          # the caller's list is the caller's: a condition must not alias it
                     self.hook('cond', slots[ins[1]], op, mine)
                 elif op == 'request':
@@ -275,17 +339,17 @@ class Runner:
                         if ev in self.res[ins[2]].users or ev in self.res[ins[2]].queue:
                             self.notes.append(('leaked', self.lab(ev), ins[2], env.now))
                 elif op == 'cput':
-                    slots[ins[1]] = self.new(self.res[ins[2]].put(ins[3]))
+                    slots[ins[1]] = self.track_req(ins[2], 'put', self.new(self.res[ins[2]].put(ins[3])))
                 elif op == 'cget':
-                    slots[ins[1]] = self.new(self.res[ins[2]].get(ins[3]))
+                    slots[ins[1]] = self.track_req(ins[2], 'get', self.new(self.res[ins[2]].get(ins[3])))
                 elif op == 'sput':
-                    slots[ins[1]] = self.new(self.res[ins[2]].put(ins[3]))
+                    slots[ins[1]] = self.track_req(ins[2], 'put', self.new(self.res[ins[2]].put(ins[3])))
                 elif op == 'sget':
                     r = self.res[ins[2]]
                     before = list(r.items) if not r.get_queue else None      # older gets waiting: they are served first
                     if self.case.res[ins[2]][0] == 'fstore': slots[ins[1]] = self.new(r.get(FILTERS[ins[3]]))
                     else: slots[ins[1]] = self.new(r.get())
-                    g = slots[ins[1]]
+                    g = self.track_req(ins[2], 'get', slots[ins[1]])
                     if before is not None and g.triggered:   # served on the spot from the items present: oracle-only record
                         self.notes.append(('got-now', self.case.res[ins[2]][0], before, g.value, ins[3], env.now))
                 elif op == 'ret':
@@ -301,16 +365,16 @@ class Runner:
             if op == 'yield':
                 ev = slots.get(ins[1]); h = ins[2]
                 while ev is not None:
-                    self.hook('yield', name, ev)
+                    self.hook('yield', name, ev, me[0])
                     try:
                         v = yield ev
-                        self.hook('resumed', name, True, v)
+                        self.hook('resumed', name, True, v, me[0])
                         self.log(name, 'got', v)
                         break
                     except GeneratorExit:
                         raise
                     except BaseException as x:
-                        self.hook('resumed', name, False, x)
+                        self.hook('resumed', name, False, x, me[0])
                         self.log(name, f'exc {type(x).__name__}', x.args[0] if x.args else None)
                         if h == 1:
                             h = 0; ev = slots.get(ins[1]); continue
@@ -339,6 +403,7 @@ class Runner:
                     break
                 self.snap()
                 self.note_heads()
+                self.note_fcfs()
             self.lines.append(f'F @{self.now()}')
         else:
             for seg in list(self.case.plan) + [('A',)]:
